@@ -89,11 +89,14 @@ ValueOk(mode, e, r) ==      \* the value handed to the data parameter is what th
       [] mode \in {"plain", "opt"} /\ r.class = "good" -> e.data = GoodNested
       [] mode \in {"inst", "instopt"} /\ r.class = "good_inst" -> e.data.t = "inst" /\ e.data.addr = "addr1"
       [] OTHER -> TRUE
+EvTypes(n) == [i \in 1..n |-> "ev" \o ToString(i - 1)]
 SecondOk(m, e, r) ==
     CASE m.on = "success" -> e.second.kind = "none"
       [] m.on = "error"   -> e.second.kind = "error" /\ e.second.text = r.err_text
-      [] OTHER            -> e.second.kind = "result" /\ e.second.ok = (r.result = "ok") /\ (r.result = "err" => e.second.text = r.err_text)
-EvTypes(n) == [i \in 1..n |-> "ev" \o ToString(i - 1)]
+      [] OTHER            -> /\ e.second.kind = "result" /\ e.second.ok = (r.result = "ok") /\ (r.result = "err" => e.second.text = r.err_text)
+                             \* the *full* result: events, message responses and data of a success are all there
+                             /\ (r.result = "ok" => /\ e.second.full.events = EvTypes(r.events) /\ e.second.full.msgresp = r.msgresp
+                                                    /\ e.second.full.data = r.data /\ e.second.full.has_data = (r.class # "absent"))
 CtxReplyOk(m, e, r) ==
     /\ e.ctx.gas_used = r.gas_used
     /\ e.ctx.height = r.env.height /\ e.ctx.contract = r.env.contract /\ e.ctx.token = r.env.token
